@@ -201,10 +201,10 @@ def gen_store_spec(rng, size="small"):
         # throughput
         nthr = rng.choice([0, 1, 2, 2, 3, 5, 8, 20, rng.randint(0, 60)])
         wthr = rng.choice([0, 0, 1, 4, rng.randint(0, 10)])
-        if fail_p == 1.0 and rng.random() < 0.3:
+        if fail_p == 1.0 and rng.random() < 0.15:
             tprofile = "zeros"  # every request failed under on-error=continue: 0 ops per request
         else:
-            tprofile = rng.choice(["uniform", "uniform", "uniform", "lognormal", "lognormal", "ints", "ints", "huge", "tiny", "two-values", "with-zeros", "mostly-zero", "equal"])
+            tprofile = rng.choice(["with-zeros", "mostly-zero", "equal", "tiny", "two-values"]) if rng.random() < 0.12 else rng.choice(["uniform", "uniform", "lognormal", "ints", "huge"])
         tn = gen_values(rng, nthr, tprofile)
         tw = warmup_values(rng, wthr, tn)
         for v in tn:
